@@ -61,19 +61,23 @@ def respJson (probes : List Nat) : Except Err Resp → Json
       ("text", jarr [jstr (String.ofList r.text.1), jnat r.text.2]),
       ("g", jarr (probes.map fun k => match glookup r.globals k with | some v => jnat v | none => Json.null))])]
 
-def runKind (kind : String) (cfg : Cfg) (cap : Nat) (evs : List (Event Store)) : Option (List (Except Err Resp) × List (Except Err Resp)) :=
-  let go (L : Loader Store Handle) := some (run L cfg (Cache.empty cap) Store.emptyStore evs, refRun L cfg Store.emptyStore evs)
+def runKind (kind : String) (cfg : Cfg) (cap : Nat) (evs : List (Event Store)) :
+    Option (List (Except Err Resp) × List (Except Err Resp) × List Bool) :=
+  let go (L : Loader Store Handle) :=
+    some (run L cfg (Cache.empty cap) Store.emptyStore evs, refRun L cfg Store.emptyStore evs,
+          runShared L cfg (Cache.empty cap) Store.emptyStore evs)
   match kind with
   | "dict" => go dictLoader
   | "dict-stale" => go dictLoaderStale
   | "fs" => go fsLoader
   | "fs-old" => go fsLoaderOld
   | "choice" => go choiceLoader
+  | "fs2" => go fs2Loader
   | "ns" => go nsLoader
   | _ => none
 
 /-- `["cacheloader", kind, cap, auto_reload, ns_key, env_globals, probes, events]`
-→ `{"outs": [...caching loader...], "ref": [...non-caching loader...]}` -/
+→ `{"outs": [...caching loader...], "ref": [...non-caching loader...], "shared": [was the cached object itself returned?]}` -/
 def handle (args : List Json) : Json :=
   match args with
   | [.str kind, cap, ar, nk, eg, probes, evs] =>
@@ -81,8 +85,9 @@ def handle (args : List Json) : Json :=
           (asArr? evs).bind (parseEvents Store.emptyStore) with
     | some cap, some ar, some nk, some (some eg), some probes, some evs =>
       match runKind kind { autoReload := ar, nsKey := nk, eg := eg } cap evs with
-      | some (outs, ref) =>
-        Json.mkObj [("outs", jarr (outs.map (respJson probes))), ("ref", jarr (ref.map (respJson probes)))]
+      | some (outs, ref, shared) =>
+        Json.mkObj [("outs", jarr (outs.map (respJson probes))), ("ref", jarr (ref.map (respJson probes))),
+                    ("shared", jarr (shared.map Json.bool))]
       | none => jerr "bad-kind"
     | _, _, _, _, _, _ => jerr "bad-case"
   | _ => jerr "bad-args"
